@@ -83,3 +83,27 @@ Proof.
   destruct (proj1 (gen_ok_iff rows) (ex_intro _ s G)) as [items Hc].
   destruct (classify_ok_parses rows items Hc) as [st' [Hp _]]. eauto.
 Qed.
+
+From GT Require Import Spec.Spelling Proofs.NoLoss Proofs.OutputText.
+
+(* C02, second half: when nil is returned, every non-blank line is represented by a node of
+   the forest that is rendered: its path (names of the nearest preceding items of depth
+   1..d-1, computed from the indentation alone, then its own name) exists in that forest *)
+Theorem nothing_lost c input rows :
+  c_dry c = false -> scan_lines input = (rows, ScanEOF) ->
+  snd (output_md c input) = Ok tt ->
+  exists items forest,
+    classify_rows rows = VOk items /\ gen_all input = Ok forest /\
+    forall p, In p (item_paths_from [] items) ->
+      exists r rest t, p = r :: rest /\ In t forest /\ tname t = r /\ has_path rest t.
+Proof.
+  intros Hd Hs H. destruct (accepted_items c input rows Hd Hs H) as [items [st' [Hc Hp]]].
+  destruct (classify_ok_parses rows items Hc) as [st2 [Hp2 [s2 Hrun]]].
+  assert (Hge : Forall (fun it => 1 <= fst it) items).
+  { clear -Hp. induction Hp; [constructor|assumption|constructor; [exact H0|assumption]]. }
+  pose proof (irun_nested items s2 Hge Hrun) as Hn.
+  exists items, (map trie_of (forest_of_items items [])). split; [exact Hc|]. split.
+  - rewrite <- (forest_of_items_inverse items Hn) in Hp.
+    destruct (gen_run_forest input rows (forest_of_items items []) st' Hs Hp) as [Ha _]. exact Ha.
+  - intros p Hin. apply (no_loss items Hn p Hin).
+Qed.
